@@ -355,7 +355,7 @@ func c04LoopSuiteNamed(cases []string, names []string) (string, []string, []stri
 // and the judge can tell apart: visible ASCII and blanks (the name travels in an HTTP header value),
 // no blank at either end, no line break; no pattern wildcard (the marking patterns are "V/**/<name>").
 // A name may hold the ": " that separates name and message on the reference server's feedback lines:
-// nothing validates test names, and the property speaks about every selected case (finding F29; the
+// nothing validates test names, and the property speaks about every selected case (finding F32; the
 // random name pools do not contain it, two fixed scenarios do).
 func c04NameOK(n string) bool {
 	if n == "" || strings.HasPrefix(n, " ") || strings.HasSuffix(n, " ") ||
@@ -686,7 +686,7 @@ func c04LoopGen(c *gen.Ctx) {
 			}
 		}
 	}
-	// F29 (known finding): a test name that contains ": " — the separator of the feedback lines.  The
+	// F32 (known finding): a test name that contains ": " — the separator of the feedback lines.  The
 	// reference server's line "<name>: <message>" is split at the FIRST ": " by the runner's reader, the
 	// front part is not a test case, the complaint is forwarded as noise and the deviating case passes;
 	// with a case named by the front part in the same batch the complaint is recorded for that one.
